@@ -312,6 +312,17 @@ def handle (op : String) (args : List String) : Option (String × String) :=
     let m ← model f as
     let o ← oracle f as
     pure (showOut m, showOut o)
+  -- api-coverage: `tform <id> <lhs> <rhs>` = the checked_* forms (OP 12..15) through the TRAIT impls
+  -- (`CheckedAdd::checked_add(x, y)` …); the trait bodies are `Some(self.add(v))` / the zero test, the same
+  -- canonical operations as the inherent methods, so model and oracle are those of `form`
+  | "tform", id :: rest => do
+    let n ← parseNat id
+    let f := decode n
+    if ¬ (12 ≤ f.op ∧ f.op ≤ 15 ∧ f.shape = 0 ∧ f.sty = 0 ∧ f.var = 3) then none else
+    let as ← parseArgs f 0 rest
+    let m ← model f as
+    let o ← oracle f as
+    pure (showOut m, showOut o)
   | _, _ => none
 
 end NB.Drv.C10
